@@ -1,4 +1,5 @@
 import itertools
+import unicodedata
 from abc import ABC, abstractmethod
 from collections.abc import Collection, Container, Iterable, Mapping, Set
 from dataclasses import dataclass
@@ -199,11 +200,17 @@ def compile_closure_with_globals_capturing(
 ):
     builder = CodeBuilder()
 
+    # The parser applies NFKC normalization to identifiers, so keys of globals dict must be normalized as well.
+    # The name of a global must differ from every name assigned inside the closure maker.
+    used_names = {unicodedata.normalize("NFKC", name) for name in (*namespace, closure_name)}
     global_namespace_dict = {}
     for name, value in namespace.items():
         value_literal = get_literal_expr(value)
         if value_literal is None:
-            global_name = f"g_{name}"
+            global_name = unicodedata.normalize("NFKC", f"g_{name}")
+            while global_name in used_names:
+                global_name = f"g_{global_name}"
+            used_names.add(global_name)
             global_namespace_dict[global_name] = value
             builder += f"{name} = {global_name}"
         else:
